@@ -4,6 +4,7 @@ package vsched
 
 import (
 	"fmt"
+	"strings"
 	"sync"
 	"sync/atomic"
 	"time"
@@ -26,6 +27,9 @@ type Explorer struct {
 	OnFailure func(prefix []int, s *Sched, f *Failure) // called once per failing execution
 	AfterRun  func(s *Sched)                           // always called when an execution has ended
 	Filter    func(p *Point, alt int) bool             // if set: only the alternatives it accepts are explored
+	// MaxChoiceDev > 0 bounds the number of non-default answers at Choose points (environment
+	// nondeterminism: a deadline passing, a select picking another ready case) along one execution
+	MaxChoiceDev int
 
 	Execs, Cut, States, Transitions int64
 	SlowExecs, SlowCut              int64
@@ -128,9 +132,14 @@ func (e *Explorer) exec(prefix []int, prePreempt int) (*Sched, []work) {
 	}
 	// alternatives at points beyond the prefix
 	pre = 0
+	devs := 0
 	for i, p := range s.Points {
-		if i >= len(prefix) && !p.Frozen {
+		isChoice := strings.HasPrefix(p.Label, "choose:")
+		if i >= len(prefix) && (!p.Frozen || isChoice) {
 			for alt := 1; alt < len(p.Enabled); alt++ {
+				if isChoice && e.MaxChoiceDev > 0 && devs+1 > e.MaxChoiceDev {
+					continue
+				}
 				if e.Filter != nil && !e.Filter(&s.Points[i], alt) {
 					continue
 				}
@@ -151,6 +160,9 @@ func (e *Explorer) exec(prefix []int, prePreempt int) (*Sched, []work) {
 		}
 		if p.RunningStill && p.Chosen != 0 {
 			pre++
+		}
+		if isChoice && p.Chosen != 0 {
+			devs++
 		}
 	}
 	return s, next
